@@ -488,6 +488,38 @@ def run_core_cells(c):
     return None
 
 
+def run_repaired(c):
+    """a TriangularMesh built without reorientation from partly inward faces, evaluated once, then repaired with
+    reorient_faces(): every interface must return the field of the mesh the object now describes (tm.vertices[tm.faces])"""
+    import magpylib as magpy
+
+    faces = CUBE_F.copy()
+    for i in range(len(faces)):
+        if (c["flipmask"] >> i) & 1:
+            faces[i] = faces[i][[0, 2, 1]]
+    pol = (0.2, -0.3, 0.5)
+    p, r = pose(1)
+    tm = magpy.magnet.TriangularMesh(vertices=CUBE_V, faces=faces, polarization=pol, reorient_faces="skip", position=p, orientation=r)
+    obs = np.array([observer(i) for i in range(3)] + [p + r.apply((0.1, 0.05, -0.2))])
+    for t in c["touch"]:
+        if t == "getB":
+            tm.getB(obs)
+        elif t == "mesh":
+            _ = tm.mesh
+        elif t == "show":
+            magpy.show(tm, backend="plotly", return_fig=True)
+    tm.reorient_faces(mode="ignore")
+    f = c["field"]
+    want = np.asarray(getattr(magpy, "get" + f)("TriangularMesh", obs, mesh=np.asarray(tm.vertices)[np.asarray(tm.faces)], polarization=pol,
+                                                 position=p, orientation=r))
+    sens = magpy.Sensor(pixel=obs)
+    forms = {"tm.getX": getattr(tm, "get" + f)(obs), "getX(tm)": getattr(magpy, "get" + f)(tm, obs),
+             "sens.getX(tm)": getattr(sens, "get" + f)(tm), "Collection(tm).getX": getattr(magpy.Collection(tm.copy()), "get" + f)(obs)}
+    sc = max(np.max(np.abs(want)), 1e-300)
+    bad = [k for k, v in forms.items() if np.shape(v) != want.shape or not np.max(np.abs(np.asarray(v) - want)) / sc <= RTOL]
+    return None if not bad else f"after reorient_faces() these interfaces differ from the functional interface on tm.vertices[tm.faces]: {bad}"
+
+
 CORES = ["magnet_cuboid_Bfield", "magnet_sphere_Bfield", "dipole_Hfield", "current_polyline_Hfield", "triangle_Bfield",
          "current_circle_Hfield", "magnet_cylinder_segment_Hfield", "magnet_cylinder_axial_Bfield",
          "magnet_cylinder_diametral_Hfield"]
@@ -501,6 +533,8 @@ def work(c):
             return run_forms(c)
         if c["part"] == "corecells":
             return run_core_cells(c)
+        if c["part"] == "repaired":
+            return run_repaired(c)
         return run_core(c)
     except Exception as e:
         import traceback
@@ -534,6 +568,10 @@ def enumerate_cases(tier, seed=0):
                 cases.append({"part": "forms", "cls": cls, "field": field, "plen": plen})
     for core in CORES:
         cases.append({"part": "core", "core": core})
+    for mask in (1, 0b101001, 0xFFF, 0xFFE):
+        for touch in ([], ["getB"], ["mesh"], ["show"], ["getB", "show"]):
+            for field in ("B", "H", "J"):
+                cases.append({"part": "repaired", "flipmask": mask, "touch": touch, "field": field})
     from mc.props import C01
 
     for cls in ("Cuboid", "Sphere", "Dipole", "Triangle", "Circle", "Polyline", "Cylinder", "CylinderSegment"):
@@ -564,6 +602,8 @@ def run(tier, seed):
         elif c["part"] == "forms":
             for b in r:
                 viols.append({"key": f"C07|form|{c['cls']}|{c['field']}|{b.split(':')[0]}", "what": f"{c}: {b}", "case": c, "observed": b})
+        elif c["part"] == "repaired":
+            viols.append({"key": f"C07|repaired-mesh|{c['field']}|touch={'+'.join(c['touch']) or 'none'}", "what": f"{c}: {r}", "case": c, "observed": r})
         elif c["part"] == "corecells":
             viols.append({"key": f"C07|corecells|{c['cls']}|regime={c['regime']}|{r.split(' ')[0]}-{r.split(' ')[1]}", "what": f"{c}: {r}", "case": c, "observed": r})
         else:
